@@ -41,7 +41,11 @@ func embedIDL(g Generator, i thriftPackageImporter, m *compile.Module) error {
 
 	hash := sha1.Sum(m.Raw)
 	var includes []string
-	for _, v := range m.Includes {
+	// Iterate in sorted order: g.Import hands out import aliases (foo, foo2,
+	// ...) in the order it is called, so ranging over the map directly made
+	// the generated code depend on Go's randomized map iteration order.
+	for _, name := range sortStringKeys(m.Includes) {
+		v := m.Includes[name]
 		importPath, err := i.Package(v.Module.ThriftPath)
 		if err != nil {
 			return wrapGenerateError("idl embedding", err)
